@@ -449,6 +449,12 @@ class CarbonClientFactory(with_metaclass(PluginRegistrar, ReconnectingClientFact
       # Re-inject queued metrics.
       metrics = list(self.queue)
       log.clients("Re-injecting %d metrics from %s" % (len(metrics), self))
+      # This queue is being emptied and has no connection left that could report
+      # space later: release the pause it may have caused, or receivers stay
+      # paused for as long as this destination is away.
+      if (self.queueFull.called and not self.queueHasSpace.called and
+              self.router.countDestinations()):
+        self.queueHasSpace.callback(0)
       for metric, datapoint in metrics:
           state.events.metricGenerated(metric, datapoint)
       self.queue.clear()
